@@ -100,3 +100,60 @@ package lua
 //@ ensures  "register-taken": !old(cd.pc >= 1 && opGetArgA(cd.codes[cd.pc-1]) >= top && (opGetOpCode(cd.codes[cd.pc-1]) == OP_MOVE || (opGetOpCode(cd.codes[cd.pc-1]) == OP_LOADK && opGetArgBx(cd.codes[cd.pc-1]) <= opMaxIndexRk))) ==> cd.pc == old(cd.pc) && deref(save) == ite(save == reg, old(deref(reg)) + inc, old(deref(reg))) && deref(reg) == old(deref(reg)) + inc
 //@ ensures  Inv_cs(cd)
 //@ modifies cd.pc, *save, *reg
+
+// ---------------------------------------------------------------------------
+// varNamePool: the names declared in one block, in declaration order; register index = offset + position
+// ---------------------------------------------------------------------------
+//@ define Inv_vp(vp *varNamePool) bool = vp != nil && offset(vp.names) == 0 && vp.offset >= 0
+
+// Find: the LATEST declaration of the name in this block (shadowing), as a register index; -1 when there is none
+//@ func (*varNamePool).Find [C01 C03 C17]
+//@ requires Inv_vp(vp)
+//@ noraise
+//@ ensures  "absent": (result == -1) <==> (forall k int :: 0 <= k && k < len(vp.names) ==> vp.names[k] != name)
+//@ ensures  "latest": result != -1 ==> vp.offset <= result && result - vp.offset < len(vp.names) && vp.names[result - vp.offset] == name && (forall k int :: result - vp.offset < k && k < len(vp.names) ==> vp.names[k] != name)
+//@ modifies nothing
+//@ loop 1 invariant -1 <= i && i < len(vp.names) && (forall k int :: i < k && k < len(vp.names) ==> vp.names[k] != name)
+
+//@ func (*varNamePool).Register [C01 C03 C17]
+//@ requires Inv_vp(vp)
+//@ noraise
+//@ ensures  Inv_vp(vp) && len(vp.names) == old(len(vp.names)) + 1 && vp.names[old(len(vp.names))] == name && result == old(len(vp.names)) + vp.offset && vp.offset == old(vp.offset) && (forall k int :: 0 <= k && k < old(len(vp.names)) ==> vp.names[k] == old(vp.names[k]))
+//@ modifies vp.names, vp.names[*]
+
+//@ func (*varNamePool).LastIndex [C01 C17]
+//@ requires vp != nil
+//@ noraise
+//@ ensures  result == vp.offset + len(vp.names)
+//@ modifies nothing
+
+// RegisterLocalVar(name): the debug record of the new local is appended LAST (declaration order), it starts at the next
+// instruction to be emitted, and no earlier record changes; records stay ordered by start pc
+//@ define Inv_fcdbg(fc *funcContext) bool = fc != nil && fc.Proto != nil && fc.Code != nil && Inv_cs(fc.Code) && fc.Block != nil && Inv_vp(fc.Block.LocalVars) && offset(fc.Proto.DbgLocals) == 0 && (forall i int :: 0 <= i && i < len(fc.Proto.DbgLocals) ==> fc.Proto.DbgLocals[i] != nil && allocated(fc.Proto.DbgLocals[i]) && fc.Proto.DbgLocals[i].StartPc <= fc.Code.pc) && (forall i int, j int :: 0 <= i && i < j && j < len(fc.Proto.DbgLocals) ==> fc.Proto.DbgLocals[i].StartPc <= fc.Proto.DbgLocals[j].StartPc && fc.Proto.DbgLocals[i] != fc.Proto.DbgLocals[j])
+//@ func (*funcContext).RegisterLocalVar [C17]
+//@ requires Inv_fcdbg(fc)
+//@ raises when fc.regTop + 1 > maxRegisters
+//@ ensures  Inv_fcdbg(fc) && len(fc.Proto.DbgLocals) == old(len(fc.Proto.DbgLocals)) + 1 && fc.Proto.DbgLocals[old(len(fc.Proto.DbgLocals))].Name == name && fc.Proto.DbgLocals[old(len(fc.Proto.DbgLocals))].StartPc == old(fc.Code.pc) && fc.Proto.DbgLocals[old(len(fc.Proto.DbgLocals))].EndPc == 0
+//@ ensures  forall k int :: 0 <= k && k < old(len(fc.Proto.DbgLocals)) ==> fc.Proto.DbgLocals[k] == old(fc.Proto.DbgLocals[k]) && fc.Proto.DbgLocals[k].Name == old(fc.Proto.DbgLocals[k].Name) && fc.Proto.DbgLocals[k].StartPc == old(fc.Proto.DbgLocals[k].StartPc) && fc.Proto.DbgLocals[k].EndPc == old(fc.Proto.DbgLocals[k].EndPc)
+//@ ensures  result == old(len(fc.Block.LocalVars.names)) + fc.Block.LocalVars.offset && fc.regTop == old(fc.regTop) + 1
+//@ modifies fc.Proto.DbgLocals, fc.Proto.DbgLocals[*], fc.Block.LocalVars.names, fc.Block.LocalVars.names[*], fc.regTop
+
+//@ func (*varNamePool).List [C17]
+//@ requires Inv_vp(vp)
+//@ noraise
+//@ ensures  len(result) == len(vp.names) && offset(result) == 0 && (forall k int :: 0 <= k && k < len(result) ==> result[k].Index == k + vp.offset && result[k].Name == vp.names[k])
+//@ modifies nothing
+//@ loop 1 invariant 0 <= i && i <= len(vp.names) && len(local(result)) == len(vp.names) && offset(local(result)) == 0 && fresh(local(result)) && (forall k int :: 0 <= k && k < i ==> local(result)[k].Index == k + vp.offset && local(result)[k].Name == vp.names[k])
+
+// EndScope: every local of the block being left - and no other record - gets its end pc: the last instruction emitted
+//@ func (*funcContext).EndScope [C17]
+//@ requires Inv_fcdbg(fc) && fc.Block.LocalVars.offset + len(fc.Block.LocalVars.names) <= len(fc.Proto.DbgLocals)
+//@ noraise
+//@ ensures  forall k int :: fc.Block.LocalVars.offset <= k && k < fc.Block.LocalVars.offset + len(fc.Block.LocalVars.names) ==> fc.Proto.DbgLocals[k].EndPc == fc.Code.pc - 1
+//@ ensures  forall k int :: 0 <= k && k < len(fc.Proto.DbgLocals) && !(fc.Block.LocalVars.offset <= k && k < fc.Block.LocalVars.offset + len(fc.Block.LocalVars.names)) ==> fc.Proto.DbgLocals[k].EndPc == old(fc.Proto.DbgLocals[k].EndPc)
+//@ ensures  forall k int :: 0 <= k && k < len(fc.Proto.DbgLocals) ==> fc.Proto.DbgLocals[k].StartPc == old(fc.Proto.DbgLocals[k].StartPc) && fc.Proto.DbgLocals[k].Name == old(fc.Proto.DbgLocals[k].Name)
+//@ modifies type DbgLocalInfo.EndPc
+//@ loop 1 invariant 0 <= rangei && rangei <= len(fc.Block.LocalVars.names) && Inv_fcdbg(fc) && fc.Block.LocalVars.offset + len(fc.Block.LocalVars.names) <= len(fc.Proto.DbgLocals)
+//@ loop 1 invariant forall k int :: fc.Block.LocalVars.offset <= k && k < fc.Block.LocalVars.offset + rangei ==> fc.Proto.DbgLocals[k].EndPc == fc.Code.pc - 1
+//@ loop 1 invariant forall k int :: 0 <= k && k < len(fc.Proto.DbgLocals) && !(fc.Block.LocalVars.offset <= k && k < fc.Block.LocalVars.offset + rangei) ==> fc.Proto.DbgLocals[k].EndPc == old(fc.Proto.DbgLocals[k].EndPc)
+//@ loop 1 invariant forall k int :: 0 <= k && k < len(fc.Proto.DbgLocals) ==> fc.Proto.DbgLocals[k].StartPc == old(fc.Proto.DbgLocals[k].StartPc) && fc.Proto.DbgLocals[k].Name == old(fc.Proto.DbgLocals[k].Name)
